@@ -277,7 +277,7 @@ func (lb *ListenerBuilder) buildOutboundNetworkFiltersWithWeightedClusters(route
 	}
 
 	for _, route := range routes {
-		service := lb.push.ServiceForHostname(lb.node, host.Name(route.Destination.Host))
+		service := lb.push.ServiceForHostname(lb.node, host.Name(route.GetDestination().GetHost()))
 		if route.Weight > 0 {
 			clusterName := istioroute.GetDestinationCluster(route.Destination, service, port.Port)
 			clusterSpecifier.WeightedClusters.Clusters = append(clusterSpecifier.WeightedClusters.Clusters, &tcp.TcpProxy_WeightedCluster_ClusterWeight{
@@ -294,7 +294,11 @@ func (lb *ListenerBuilder) buildOutboundNetworkFiltersWithWeightedClusters(route
 	tunnelingconfig.Apply(tcpProxy, destinationRule, "")
 
 	// TODO: Need to handle multiple cluster names for Redis
-	clusterName := clusterSpecifier.WeightedClusters.Clusters[0].Name
+	clusterName := ""
+	if len(clusterSpecifier.WeightedClusters.Clusters) > 0 {
+		// empty when no destination has a positive weight (refused by validation, but config may still arrive)
+		clusterName = clusterSpecifier.WeightedClusters.Clusters[0].Name
+	}
 	class := model.OutboundListenerClass(lb.node.Type)
 	tcpFilter := setAccessLogAndBuildTCPFilter(lb.push, lb.node, tcpProxy, class, nil)
 	networkFilterStack := buildNetworkFiltersStack(port.Protocol, tcpFilter, statPrefix, clusterName)
@@ -367,7 +371,7 @@ func (lb *ListenerBuilder) buildOutboundNetworkFilters(
 	port *model.Port, configMeta config.Meta, includeMx bool,
 ) []*listener.Filter {
 	push, node := lb.push, lb.node
-	service := push.ServiceForHostname(node, host.Name(routes[0].Destination.Host))
+	service := push.ServiceForHostname(node, host.Name(routes[0].GetDestination().GetHost()))
 	var destinationRule *networking.DestinationRule
 	if service != nil {
 		destinationRule = CastDestinationRule(node.SidecarScope.DestinationRule(model.TrafficDirectionOutbound, node, service.Hostname).GetRule())
@@ -377,12 +381,12 @@ func (lb *ListenerBuilder) buildOutboundNetworkFilters(
 		statPrefix := clusterName
 		// If stat name is configured, build the stat prefix from configured pattern.
 		if len(push.Mesh.OutboundClusterStatName) != 0 && service != nil {
-			statPrefix = telemetry.BuildStatPrefix(push.Mesh.OutboundClusterStatName, routes[0].Destination.Host,
-				routes[0].Destination.Subset, port, 0, &service.Attributes)
+			statPrefix = telemetry.BuildStatPrefix(push.Mesh.OutboundClusterStatName, routes[0].GetDestination().GetHost(),
+				routes[0].GetDestination().GetSubset(), port, 0, &service.Attributes)
 		}
 
 		return lb.buildOutboundNetworkFiltersWithSingleDestination(
-			statPrefix, clusterName, routes[0].Destination.Subset, port, destinationRule, tunnelingconfig.Apply, includeMx, nil)
+			statPrefix, clusterName, routes[0].GetDestination().GetSubset(), port, destinationRule, tunnelingconfig.Apply, includeMx, nil)
 	}
 	return lb.buildOutboundNetworkFiltersWithWeightedClusters(routes, port, configMeta, destinationRule, includeMx)
 }
